@@ -23,6 +23,7 @@ macro_rules! dispatch {
       "C05" => $f::<props::c05::C05>($($arg),*),
       "C06" => $f::<props::c06::C06>($($arg),*),
       "C07" => $f::<props::c07::C07>($($arg),*),
+      "C08" => $f::<props::c08::C08>($($arg),*),
       "C10" => $f::<props::c10::C10>($($arg),*),
       "C11" => $f::<props::c11::C11>($($arg),*),
       "C12" => $f::<props::c12::C12>($($arg),*),
@@ -43,6 +44,8 @@ fn main() {
   if args.len() < 2 { eprintln!("usage: mechcheck run|worker|replay|probe ..."); std::process::exit(3); }
   match args[1].as_str() {
     "probe" => probe(),
+    "fmtone" => fmtone(),
+    "fmtprobe" => fmtprobe(),
     "docprobe" => docprobe(),
     "compileprobe" => compileprobe(),
     "fsmprobe" => fsmprobe(),
@@ -161,6 +164,51 @@ fn docprobe() {
           println!("  main: {}", main.iter().map(|(k, v)| format!("{}={}", k, v.show())).collect::<Vec<_>>().join("; "));
           for (id, sn) in named { println!("  fence {}: {}", id, sn.iter().map(|(k, v)| format!("{}={}", k, v.show())).collect::<Vec<_>>().join("; ")); }
         }
+      }
+    }
+  }).unwrap();
+  h.join().unwrap();
+}
+
+/// formatter round trip over every corpus entry and generated construct; prints a histogram of failure signatures
+fn fmtprobe() {
+  use props::c08::*;
+  mech::install_quiet_panic_hook();
+  let h = std::thread::Builder::new().stack_size(512 << 20).spawn(move || {
+    let mut hist: std::collections::BTreeMap<String, (usize, String)> = Default::default();
+    let mut n = 0; let mut ok = 0; let mut disc = 0;
+    let mut cases: Vec<Case> = vec![];
+    for i in 0..700u32 { cases.push(Case::Snippet(i)); }
+    for i in 0..200u32 { cases.push(Case::File(i)); }
+    for k in 0..NCONSTRUCTS { for p in [0u32, 1, 13, 77, 1234] { cases.push(Case::Gen(vec![(k, p)])); } }
+    for c in cases {
+      let Some(src) = case_text(&c) else { continue };
+      n += 1;
+      match round_trip(&src) {
+        Fmt::Ok(_) => ok += 1,
+        Fmt::Discard(_) => disc += 1,
+        Fmt::Fail(k, _) => { let name = match &c { Case::Gen(g) => format!("construct:{}", construct(g[0].0, g[0].1).0), Case::Snippet(i) => format!("snippet {}", i), Case::File(i) => format!("file {}", i), _ => String::new() }; let e = hist.entry(k).or_insert((0, name)); e.0 += 1; }
+      }
+    }
+    println!("{} cases: {} ok, {} discarded", n, ok, disc);
+    for (k, (cnt, ex)) in hist { println!("{:5}  {}   e.g. {}", cnt, k, ex); }
+  }).unwrap();
+  h.join().unwrap();
+}
+
+/// formats stdin snippets (separated by ----) and prints the formatted text and verdict
+fn fmtone() {
+  use std::io::Read;
+  mech::install_quiet_panic_hook();
+  let mut s = String::new();
+  std::io::stdin().read_to_string(&mut s).unwrap();
+  let h = std::thread::Builder::new().stack_size(512 << 20).spawn(move || {
+    for snip in s.split("\n----\n") {
+      let snip = snip.trim_matches('\n');
+      if snip.is_empty() { continue; }
+      match mech_syntax::parser::parse(snip) {
+        Err(_) => println!("SRC {:?}\n  does not parse", snip),
+        Ok(t) => { let f = mech_syntax::formatter::Formatter::new().format(&t); println!("SRC {:?}\n  FMT {:?}\n  {}", snip, f, match props::c08::round_trip(snip) { props::c08::Fmt::Ok(_) => "ok".to_string(), props::c08::Fmt::Discard(w) => w, props::c08::Fmt::Fail(k, _) => format!("FAIL {}", k) }); }
       }
     }
   }).unwrap();
